@@ -1,5 +1,8 @@
 (* C18 — step API and public facades are equivalent to search() / the backend classes.  Statements only. *)
 Require Import Base StopRun Converter Driver DriverObs DriverFacts Facade C18_proofs FacadeData.
+Require Import PyPrims PyPrimsQ DriverGen DriverTie SearchGen SearchTie.
+From RecordUpdate Require Import RecordSet.
+Import RecordSetNotations.
 
 (* init_search + search_step(0..N-1) + finish_search yields the very same Search object as search(n_iter=N)
    (no stopping criterion configured), for every optimizer, objective, clock and prior history *)
@@ -35,3 +38,15 @@ Example C18_nonvacuous :
              [mkCall 4 no_stop true None false] api [] in
   run_case (mk true) = run_case (mk false) /\ match run_case (mk true) with Ok [o] => ob_best_value o = Some [20] | _ => False end.
 Proof. vm_compute. split; reflexivity. Qed.
+
+(* the search_step GENERATED from /repo's search.py is the model's search_step (which C18_search_eq_steps is about): driving the
+   translated step function by hand or inside the translated loop runs the same model steps *)
+Theorem C18_source_search_step_refines : forall (OP : optimizer) sp f clk (g : g_search (drv OP)) k n, ties g ->
+  match g_Search_search_step (drv OP) (inner_score sp f) clk k g n with
+  | Ok (g', k') => search_step sp f clk (abs g k) n = Ok (abs g' k') /\ same_cfg (g <| gs_nth_iter := n |>) g' /\
+                   gs_n_init_search g' <= gs_n_init_search g + 1 /\
+                   (gs_n_init_search g <= n -> n < gs_n_iter g -> stop_synced g' (gs_stop g))
+  | Err e => search_step sp f clk (abs g k) n = Err e
+  end.
+Proof. exact (@search_step_tie). Qed.
+Print Assumptions C18_source_search_step_refines.
